@@ -59,11 +59,26 @@ def read_num(buf, off: int, end: int):
     return v, off + 1 + n, minimal
 
 
+CLAMP = False   # emulation of ONE known library defect (value cut by slicing); see c07_decoders / known_findings.json
+
+
+class clamped:
+    def __enter__(self):
+        global CLAMP
+        CLAMP = True
+
+    def __exit__(self, *a):
+        global CLAMP
+        CLAMP = False
+
+
 def read_tlv(buf, off: int, end: int):
     """-> (typ, tl_start, v_start, v_end, minimal).  Element must lie entirely in [off, end)."""
     typ, p, m1 = read_num(buf, off, end)
     ln, p, m2 = read_num(buf, p, end)
     if p + ln > end:
+        if CLAMP:
+            return typ, off, p, end, (m1 and m2)
         raise Malformed(f'element type {typ} at {off} overruns its container ({p}+{ln}>{end})')
     return typ, off, p, p + ln, (m1 and m2)
 
